@@ -155,6 +155,12 @@ func genSeqCache(prop string, seed uint64, tier string, kinds []string) *SeqScen
 	if prop == "C15" {
 		sc.JanitorOnly = true
 		// entries with various TTLs, then only the clock moves and Count is polled
+		if g.r.Bool(0.4) {
+			// an idle period first: the cache stays empty for several intervals
+			for i := 0; i < 1+g.r.Intn(6); i++ {
+				sc.Ops = append(sc.Ops, advance())
+			}
+		}
 		ns := 1 + g.r.Intn(8)
 		for i := 0; i < ns; i++ {
 			d := []int64{1, 3, 50, 1000, int64(time.Second), 0, sentinelDefault, int64(time.Hour)}[g.r.Intn(8)]
